@@ -39,7 +39,7 @@ type HandlerSpec struct {
 //
 // Ops: add:h | run | wrun | rh | rhbg | wrh | wst:h | stop:h | wsd:h | cancel | close:n | wclose | wrr | run2 |
 // emit:h:n | wacc | whs:n | whe:n | park:<hook>[:arg] | wpark | rel | wev:<kind>[:n] | gate | pub:h:n | nap:ms |
-// plugclose (a plugin that calls Close while Run starts up) | subgo (let gated Subscribe calls return) | cst:h (is Started() closed?)
+// crun (is Running() closed?) | plugclose (a plugin that calls Close while Run starts up) | subgo (let gated Subscribe calls return) | cst:h (is Started() closed?)
 type Scenario struct {
 	Handlers         []HandlerSpec `json:"h"`
 	Prog             []string      `json:"p"`
@@ -390,6 +390,13 @@ func Run(sc Scenario) *Result {
 				rec.Log("rng")
 			} else {
 				ok = false
+			}
+		case "crun": // is Running() closed? (checked without waiting)
+			select {
+			case <-router.Running():
+				rec.Log("rng")
+			default:
+				rec.Log("nrng")
 			}
 		case "rh":
 			ok = callBounded("RunHandlers", doRh)
